@@ -129,3 +129,36 @@ def c14_addr_mask_in_bytes(v, case):
     if off is None or rb is None or wb is None or wb <= 1:
         return False
     return (rb // wb) <= off < rb
+
+
+# ------------------------------------------------------------------------------------------------ C09
+_C09_CONSEQUENCES = ("B-id-wrong-or-out-of-order", "missing-B-responses", "no-progress", "more-B-responses-than-AW",
+                     "B-for-burst-whose-data-never-reached-memory")
+
+
+def c09_id_buffer_overflow(v, case):
+    """LiteDRAMAXI2NativeW pushes the AW id into id_buffer (depth = w_buffer_depth) without looking at its ready, while the
+    buffered w_buffer lets w_buffer_depth+1 single-beat bursts be in flight between command acceptance and the memory-side
+    data strobe: the id of the extra burst is dropped and later B responses carry stale / shifted ids.  Accepts only
+    witnesses of runs in which more bursts than w_buffer_depth were measured in flight at the native boundary."""
+    return (v.get("kind") in _C09_CONSEQUENCES and not v.get("rmw")
+            and (v.get("peak_write_bursts_in_flight") or 0) > (v.get("w_buffer_depth") or 1 << 30))
+
+
+def c09_resp_buffer_overflow(v, case):
+    """The B response is pushed into resp_buffer (depth = w_buffer_depth) in the cycle the burst's last data beat is handed
+    to the memory, without looking at resp_buffer's ready (the memory-side strobe cannot be stalled): when the master
+    holds BREADY low while more than w_buffer_depth bursts complete, responses are lost.  Accepts only witnesses of runs in
+    which more completed-but-unacknowledged bursts than w_buffer_depth were measured."""
+    return (v.get("kind") in _C09_CONSEQUENCES and not v.get("rmw")
+            and (v.get("peak_responses_pending") or 0) > (v.get("w_buffer_depth") or 1 << 30))
+
+
+def c09_rmw_pairs_bus_beat_with_head_command(v, case):
+    """with_read_modify_write=True: the RMW FSM decides on the W beat currently on the AXI bus but addresses it with the
+    head of the AW beat stream; when earlier W beats are still buffered and not yet commanded (legal: W data may run
+    ahead of AW) the partial beat is merged into the wrong address.  Accepts only RMW-mode witnesses of runs in which a
+    partial-strobe beat was measured on the bus before the previous beat's write command had been accepted."""
+    return bool(v.get("rmw") and v.get("partial_beat_on_bus_before_previous_beat_commanded")
+                and v.get("kind") in ("read-data-not-explained-by-any-legal-order", "final-store-differs-from-model", "no-progress",
+                                      "B-id-wrong-or-out-of-order", "missing-B-responses", "read-burst-short"))
